@@ -416,6 +416,29 @@ def exec_group(case):
                 y2 = cut(real, x)
             if isinstance(y2, Raised) or not torch.equal(y, y2):
                 out.fail(f"auto-group/{case['kind']}/frozen-differs", f"per-output count {per}, group {gs}")
+        # "can be quantized to any qtype": the module re-typed by loading a state_dict saved with another weight qtype gets the
+        # automatic group size of THAT qtype, and runs
+        def fresh(qt):
+            if case["kind"] == "linear":
+                return QLinear(case["inf"], 3, bias=True, weights=qt)
+            return QConv2d(cin, groups * 2, (kh, kw), groups=groups, bias=True, weights=qt)
+
+        for on in ("qint8", "qfloat8_e4m3fn", "qint2" if case["qtype"] == "qint4" else "qint4"):
+            oq = O.QTALL[on]
+            src = fresh(oq)
+            tgt = fresh(qtype)
+            r = cut(tgt.load_state_dict, src.state_dict())
+            tag = f"auto-group/{case['kind']}/retyped-by-load"
+            if isinstance(r, Raised):
+                out.fail(f"{tag}/raises:{r.type}", f"{case['qtype']} module loading a {on} state_dict: {r.text}")
+                continue
+            if tgt.weight_qtype != oq or tgt.weight_group_size != src.weight_group_size:
+                out.fail(f"{tag}/group-size", f"{case['qtype']} module after loading a {on} state_dict: qtype {tgt.weight_qtype}, group size {tgt.weight_group_size}, a fresh {on} module has {src.weight_group_size} (per-output count {per})")
+                continue
+            with torch.no_grad():
+                ys, yt = cut(src, x), cut(tgt, x)
+            if isinstance(yt, Raised) or isinstance(ys, Raised) or not torch.equal(ys, yt):
+                out.fail(f"{tag}/forward", f"{case['qtype']} module after loading a {on} state_dict: {yt if isinstance(yt, Raised) else 'outputs differ from the saved module'}")
     return out
 
 
